@@ -591,8 +591,10 @@ def monitor_tables(w: NodeWorld):
                 out.append(("peer-connection-closed", f"{name}.connection is CLOSED"))
             elif (pc.node_name or pc.host_identity) and name not in (pc.node_name, pc.host_identity):
                 out.append(("peer-connection-foreign", f"{name}.connection belongs to {pc.node_name or pc.host_identity}"))
+        # whose connection it is: the peer it was opened towards / that identified itself in the CER (node_name);
+        # the identity an answering host advertises does not hand the connection to another configured peer
         live = [c for c in conns.values() if c.state != CLOSED and
-                (c.node_name == name or c.host_identity == name) and
+                ((c.node_name or c.host_identity or "").lower() == name) and
                 (c.is_sender or c.state in READY or c.state in (peer_mod.PEER_DISCONNECTING, peer_mod.PEER_CLOSING))]
         if live and pc is None:
             out.append(("live-connection-unreferenced",
